@@ -96,3 +96,72 @@ pub fn probe_disjoint(rcv: &mut dyn DynReceiver, p: &Probe, rcv_sealing: bool) -
     }
     Ok(())
 }
+
+/// Outcome of a long run of rejected deliveries on ONE receiver through the public API only
+pub enum LongRun {
+    /// all `n` deliveries were rejected with OpenError and the two genuine messages then opened
+    Fine(u64),
+    /// a modified / out-of-sequence delivery returned Ok
+    Accepted(String),
+    /// a rejected delivery returned something other than OpenError
+    ChangedError(String),
+    /// the genuine in-sequence message was refused afterwards
+    NextRejected(String),
+    Panicked(String),
+    Infra(String),
+}
+
+/// `n` consecutive rejected deliveries (bad tag through the in-place form, garbage, a future
+/// message, wrong aad, a too-short input - no success in between), then the two genuine messages.
+/// A counter of failures kept inside a context shows up here and nowhere else.
+pub fn long_rejection_run(aead: crate::refmodel::hpke_ref::AeadId, n: u64) -> LongRun {
+    use crate::refmodel::hpke_ref::{KdfId, KemId, Suite};
+    let r = std::panic::catch_unwind(std::panic::AssertUnwindSafe(|| {
+        let s = Suite { kem: KemId::X25519, kdf: KdfId::Sha256, aead };
+        let d = suite::get(s);
+        let sess = crate::gen::cell_session(s, 0, 606);
+        let keys = sess.keys();
+        let Ok((enc, mut snd)) = honest_sender(d, &sess, &keys) else { return LongRun::Infra("setup failed".into()) };
+        let Ok(mut rcv) = honest_receiver(d, &sess, &keys, &enc) else { return LongRun::Infra("setup failed".into()) };
+        let Ok(c0) = snd.seal(b"first message", b"a0") else { return LongRun::Infra("seal failed".into()) };
+        let Ok(c1) = snd.seal(b"second message", b"") else { return LongRun::Infra("seal failed".into()) };
+        let mut bad_tag = c0[c0.len() - 16..].to_vec();
+        bad_tag[0] ^= 1;
+        let garbage = [0x5au8; 24];
+        let mut flipped = c0.clone();
+        flipped[0] ^= 0x80;
+        for i in 0..n {
+            let (what, r): (&str, Result<(), String>) = match i % 6 {
+                0 => {
+                    let mut body = c0[..c0.len() - 16].to_vec();
+                    ("tag bit flipped (in-place form)", rcv.open_in_place(&mut body, b"a0", &bad_tag).map_err(|f| format!("{:?}", f)).map(|_| ()))
+                }
+                1 => ("garbage", rcv.open(&garbage, b"").map_err(|e| format!("{:?}", e)).map(|_| ())),
+                2 => ("the next-but-one message", rcv.open(&c1, b"").map_err(|e| format!("{:?}", e)).map(|_| ())),
+                3 => ("ciphertext bit flipped", rcv.open(&flipped, b"a0").map_err(|e| format!("{:?}", e)).map(|_| ())),
+                4 => ("wrong aad", rcv.open(&c0, b"a1").map_err(|e| format!("{:?}", e)).map(|_| ())),
+                _ => ("truncated below a tag", rcv.open(&c0[..7], b"a0").map_err(|e| format!("{:?}", e)).map(|_| ())),
+            };
+            match r {
+                Err(e) if e.contains("OpenError") => {}
+                Ok(()) => return LongRun::Accepted(format!("{}: delivery #{} on one receiver ({}) was ACCEPTED after {} consecutive rejections", aead.name(), i, what, i)),
+                Err(e) => return LongRun::ChangedError(format!("{}: rejected delivery #{} on one receiver ({}) returned {} instead of OpenError", aead.name(), i, what, e)),
+            }
+        }
+        match rcv.open(&c0, b"a0") {
+            Ok(p) if p == b"first message" => {}
+            other => return LongRun::NextRejected(format!("{}: after {} rejected deliveries the in-sequence message was not accepted: {:?}", aead.name(), n, other.map(|p| p.len()))),
+        }
+        match rcv.open(&c1, b"") {
+            Ok(p) if p == b"second message" => LongRun::Fine(n),
+            other => LongRun::NextRejected(format!("{}: after {} rejected deliveries and one success the next message was not accepted: {:?}", aead.name(), n, other.map(|p| p.len()))),
+        }
+    }));
+    match r {
+        Ok(x) => x,
+        Err(p) => {
+            let msg = p.downcast_ref::<String>().cloned().or_else(|| p.downcast_ref::<&str>().map(|s| s.to_string())).unwrap_or_else(|| "panic".into());
+            LongRun::Panicked(format!("{}: a long run of rejected deliveries on one receiver panicked: {}", aead.name(), msg))
+        }
+    }
+}
